@@ -169,7 +169,7 @@ def run_task(args):
                 rec["concrete_detail"] = str(c.details.get(f.label, ""))[:400]
                 if f.known is None:
                     for k in known:
-                        if not k.get("region") and f.label.startswith(k["label"]) and all(cfg.get(a) == b for a, b in (k.get("cfg") or {}).items()):
+                        if not k.get("region") and sym.label_matches(f.label, k["label"]) and all(cfg.get(a) == b for a, b in (k.get("cfg") or {}).items()):
                             rec["known"] = k["id"]
                 if key not in seen or rec["known"] != f.known:
                     seen.add(key)
